@@ -1,16 +1,32 @@
-(* Model of actix-files/src/chunked.rs : the offset/counter loop of ChunkedReadFile::poll_next
-   over an abstract file.  No proofs here.
+(* Model of actix-files/src/chunked.rs : ChunkedReadFile (new_chunked_read, the callback with its
+   two read modes, and the offset/counter bookkeeping of poll_next) over an abstract file.
+   No proofs here.
 
-   One callback invocation = `file.seek(Start(offset)); file.take(max_bytes).read_to_end(buf)`;
-   it returns the bytes file[offset .. offset+n) for some n <= max_bytes (n = 0 at or past the end
-   of the file, reported as UnexpectedEof).  How many bytes a particular read returns is taken from
-   a schedule (one entry per read: an upper bound the operating system imposes on that read), so
-   that "every read-size schedule" is a quantifier over lists.  The model records WHICH bytes were
-   read ([EChunk off n] = file[off .. off+n)); the bytes themselves are [slice file off n]. *)
+   One callback invocation = chunked_read_file_callback(file, offset, max_bytes, read_mode):
+     ReadMode::Sync  => chunked_read_file_callback_sync(..) run inline (the future is ready at its
+                        first poll);
+     ReadMode::Async => web::block(|| chunked_read_file_callback_sync(..)): the same read on the
+                        blocking pool, the future is Pending for some polls first.
+   chunked_read_file_callback_sync = `file.seek(Start(offset)); file.take(max_bytes).read_to_end(buf)`:
+   it returns the bytes file[offset .. offset+n) for some n <= max_bytes (n = 0 at or past the end of
+   the file, reported as UnexpectedEof).  The schedule gives, per read, how many polls an Async
+   future stays Pending and an upper bound the operating system imposes on that read, so that
+   "every read-size schedule" is a quantifier over lists.
+   poll_next, `File` state: stop when size == counter, else create the future with the CURRENT
+   offset and go to the `Future` state; `Future` state, once ready: put the file back,
+   `offset += bytes.len(); counter += bytes.len()`, yield the bytes.  Both modes go through this
+   one bookkeeping site.  The model records WHICH bytes were read ([EChunk off n] =
+   file[off .. off+n)); the bytes themselves are [slice file off n]. *)
 From AV Require Import Lib.Base Files.Range.
+
+Inductive read_mode := Sync | Async.
+
+(* new_chunked_read: `if size < read_mode_threshold { Sync } else { Async }` *)
+Definition mode_of (size threshold : N) : read_mode := if size <? threshold then Sync else Async.
 
 Inductive ev :=
 | EChunk (off n : N)   (* Poll::Ready(Some(Ok(bytes))) with bytes = file[off .. off+n) *)
+| EWait (polls : nat)  (* Poll::Pending that many times (Async future not finished yet) *)
 | EErr                 (* Poll::Ready(Some(Err(UnexpectedEof))) *)
 | EPending.            (* schedule exhausted: the stream has not finished *)
 
@@ -18,20 +34,36 @@ Section Reader.
   Variable chunk : N.   (* 65_536, from Gen/Consts.v *)
   Variable flen : N.    (* length of the file on disk while it is read *)
 
-  Fixpoint read_loop (sched : list N) (size offset counter : N) : R (list ev) :=
+  (* chunked_read_file_callback_sync: number of bytes obtained for a read of [max_bytes] at [offset]
+     when the operating system hands over at most [k] *)
+  Definition callback_sync (k offset max_bytes : N) : N :=
+    N.min (N.min k max_bytes) (flen - offset).
+
+  (* chunked_read_file_callback: (polls the future stays Pending, bytes obtained) *)
+  Definition callback (mode : read_mode) (pend : nat) (k offset max_bytes : N) : nat * N :=
+    match mode with
+    | Sync => (0%nat, callback_sync k offset max_bytes)
+    | Async => (pend, callback_sync k offset max_bytes)
+    end.
+
+  Definition waits (w : nat) : list ev := match w with O => [] | _ => [EWait w] end.
+
+  Fixpoint read_loop (mode : read_mode) (sched : list (nat * N)) (size offset counter : N) : R (list ev) :=
     if size =? counter then Val []                       (* Poll::Ready(None) *)
     else
       match sched with
       | [] => Val [EPending]
-      | k :: sched' =>
+      | (pend, k) :: sched' =>
           let max_bytes := N.min (size - counter) chunk in   (* saturating_sub, then min *)
-          let n := N.min (N.min k max_bytes) (flen - offset) in
-          if n =? 0 then Val [EErr]
+          (* fut = callback(file, offset, max_bytes, read_mode); state := Future; poll it *)
+          let wn := callback mode pend k offset max_bytes in
+          let n := snd wn in
+          if n =? 0 then Val (waits (fst wn) ++ [EErr])      (* ready!(fut.poll(cx))? *)
           else
             rbind (uadd offset n) (fun offset' =>            (* *this.offset += bytes.len() *)
             rbind (uadd counter n) (fun counter' =>          (* *this.counter += bytes.len() *)
-            rbind (read_loop sched' size offset' counter') (fun evs =>
-            Val (EChunk offset n :: evs))))
+            rbind (read_loop mode sched' size offset' counter') (fun evs =>
+            Val (waits (fst wn) ++ EChunk offset n :: evs))))
       end.
 End Reader.
 
@@ -48,5 +80,6 @@ Fixpoint finished (evs : list ev) : bool :=
   match evs with
   | [] => true
   | EChunk _ _ :: r => finished r
+  | EWait _ :: r => finished r
   | _ => false
   end.
